@@ -542,4 +542,9 @@ class HTMLSanitizer(object):
     _CSS_COMMENTS = re.compile(r'/\*.*?\*/', re.DOTALL).sub
 
     def _strip_css_comments(self, text):
-        return self._CSS_COMMENTS('', text)
+        while True:
+            # removing a comment can complete another one: '//*x*/**/'
+            stripped = self._CSS_COMMENTS('', text)
+            if stripped == text:
+                return text
+            text = stripped
